@@ -267,6 +267,7 @@ func c06R3(c *Ctx) {
 	idles := p.Method(eniPkg, "Set", "Idles")
 	sites := p.CallsTo(nil, dispose)
 	c.WhoMay("C06.R3", "call IP.Dispose", groupCalls(sites), map[string]string{"pkg/eni.Local.Dispose": "pool shrink", "pkg/eni.Local.load": "start-up adjustment to a lower cap"})
+	c.WhoMayCallDeep("C06.R3", "call IP.Dispose", []*types.Func{dispose}, map[string]string{"pkg/eni.Local.Dispose": "pool shrink", "pkg/eni.Local.load": "start-up adjustment to a lower cap"})
 	c.Floor("C06.R3", "IP.Dispose call sites", 4, len(sites))
 	for _, cs := range sites {
 		recv := ast.Unparen(cs.Call.Fun).(*ast.SelectorExpr).X
